@@ -126,3 +126,26 @@ func VerifH_C19_containers() {
 	}
 	vCover("roundtrip")
 }
+
+// C19.K2 (wide dictionary): field ids above 255 need two bytes whatever the
+// order in which the names were interned.
+func VerifH_C19_wideDictionaryObject() {
+	vUnwind(1200)
+	var b MetadataBuilder
+	b.Add("zz") // the greatest field name gets the smallest id
+	for i := 0; i < 299; i++ {
+		b.Add("f" + string(rune('a'+i/26/26)) + string(rune('a'+i/26%26)) + string(rune('a'+i%26)))
+	}
+	late := "f" + string(rune('a'+298/26/26)) + string(rune('a'+298/26%26)) + string(rune('a'+298%26))
+	x, y := Int32(vI32("x")), Int64(vI64("y"))
+	v := MakeObject([]Field{{Name: late, Value: x}, {Name: "zz", Value: y}})
+	enc := Encode(&b, v)
+	vAssert(len(enc) > 0, "object encodes")
+	m, _ := b.Build()
+	dec, n, err := decodeValue(m, enc)
+	vAssert(err == nil && n == len(enc), "object decodes and consumes the encoded bytes")
+	if err == nil {
+		vAssert(dec.Equal(v), "object with field ids above 255 round-trips")
+	}
+	vCover("roundtrip")
+}
